@@ -23,4 +23,49 @@ GROUPS = {
                  bound="<= 3 slices x <= 2 bytes, <= 6 writer calls (accept k / Interrupted / Ok(0) / hard error, symbolic per call)"),
         ],
     ),
+    "emf_num": dict(
+        crate="metrique-writer-format-emf",
+        prefix="emf::verif_kani::",
+        modules={"metrique-writer-format-emf/src/emf.rs": "kani/emf/emf.rs"},
+        drop_log=["metrique-writer-format-emf/src/emf.rs"],
+        target_files="metrique-writer-format-emf/src/emf.rs",
+        jobs=14,
+        harnesses=[
+            dict(name="clamp_to_finite_all_doubles", complete=True, props=["C02", "C03"], targets=["clamp_to_finite"], covers=2, uses_stubs=True,
+                 bound="all 2^64 doubles, loop-free"),
+        ] + [
+            dict(name="rate_binade_%02d" % e, complete=True, props=["C12"], targets=["rate_to_n_alpha", "rate_to_n"], covers=1,
+                 tier="quick" if e in (0, 1, 7, 23, 51) else "thorough", timeout=600,
+                 bound="all f32 rates in (2^-%d, 2^-%d], all 2^64 draws; loop-free" % (e + 1, e)) for e in range(52)
+        ] + [
+            dict(name="rate_to_n_small_rates", complete=True, props=["C12"], targets=["rate_to_n"], covers=2, timeout=600,
+                 bound="all f32 rates in (0, 2^-52] incl. subnormals, all draws; loop-free"),
+        ],
+    ),
+    "writer_sample": dict(
+        crate="metrique-writer",
+        prefix="sample::verif_kani::",
+        modules={"metrique-writer/src/sample/mod.rs": "kani/writer/sample_mod.rs"},
+        target_files="metrique-writer/src/sample/mod.rs",
+        props=["C12"],
+        harnesses=[
+            dict(name="fixed_fraction_format_all_rates_all_draws", complete=True, targets=["FixedFractionSample::format"], covers=2,
+                 bound="all f32 rates in (0,1] x all 2^32 draws; loop-free"),
+            dict(name="fixed_fraction_rejects_bad_rate", complete=True, should_panic=True, targets=["FixedFractionSample::with_rng"]),
+        ],
+    ),
+    "writer_congress": dict(
+        crate="metrique-writer",
+        prefix="sample::congress::verif_kani::",
+        modules={"metrique-writer/src/sample/congress.rs": "kani/writer/congress.rs"},
+        target_files="metrique-writer/src/sample/congress.rs",
+        props=["C12"],
+        harnesses=[
+            dict(name="ema_add_sample_step", complete=True, targets=["ExpMovingAverage::add_sample"], timeout=900,
+                 bound="any state with samples<=16, 0<=value<=4e9; any u32 sample; loop-free"),
+            dict(name="group_state_update_and_retain_step", complete=True, targets=["GroupState::update_and_retain"], covers=1, timeout=900,
+                 bound="any state satisfying the invariant; loop-free"),
+            dict(name="group_state_record_observation", complete=True, targets=["GroupState::record_observation"]),
+        ],
+    ),
 }
